@@ -58,6 +58,9 @@ func (core *JApiCore) getIncludedFilePath(keyword *scanner.Lexeme) (string, *jer
 
 	// The file name may be written in quotes like any other parameter.
 	path := parameter.Value().Unquote().String()
+	if path == "" {
+		return "", requiredParameterNotSpecified(keyword)
+	}
 
 	if err := validateIncludeFileName(path); err != nil {
 		return "", incorrectParameter(keyword, path, err.Error())
